@@ -59,7 +59,9 @@ class Exec:
                               alive_at_cancel=False, timer_during_run=False) for i in range(self.n)}
         self.op_i = 0
         self.op_task = None
-        self.tids = {}  # scenario index -> tid
+        self.tids = {}  # scenario index -> tid (truth, recorded at enqueue)
+        self.issued = []
+        self.clients = []
         self.trace = []
         self.final_seen = {}
         self.max_live = 0
@@ -83,6 +85,13 @@ class Exec:
         me = self
 
         class MonSched(self.local.Scheduler):
+            async def enqueue_task(self, name, script, working_dir, time_limit, deps):
+                tid = await super().enqueue_task(name=name, script=script, working_dir=working_dir, time_limit=time_limit, deps=deps)
+                if isinstance(name, str) and name[:1] == "t" and name[1:].isdigit():
+                    me.tids[int(name[1:])] = tid
+                    me.issued.append(tid)
+                return tid
+
             async def cancel_task(self, tid):
                 idx = me._idx_of_tid(tid)
                 if idx is not None:
@@ -101,7 +110,22 @@ class Exec:
         logging.getLogger("gwf.backends.local").disabled = True  # the pool logs tracebacks of failing tasks; not an oracle
         self.world.__enter__()
         self.sched = self.loop.do(MonSched, wd, sc["cores"])
-        if sc.get("via") == "server":
+        if sc.get("clients"):
+            self.server = self.local.Server(self.sched)
+            for c in sc["clients"]:
+                reader = self.loop.do(lambda: asyncio.StreamReader(limit=2**16, loop=self.loop))
+                writer = vloop.FakeWriter(fail_drain=c.get("fail_drain", False))
+                writer.snapshots = []
+                handler = self.loop.do(self.loop.create_task, self.server.handle_connection(reader, writer))
+                self.clients.append(dict(name=c["name"], ops=c["ops"], after=c.get("after"), i=0, reader=reader, writer=writer, handler=handler, healthy=c.get("healthy", False), expect=0, parsed=0, enq_order=[]))
+                orig_write = writer.write
+
+                def write(b, writer=writer, orig_write=orig_write):
+                    writer.snapshots.append({str(k): v.name for k, v in self.sched.task_states.items()})
+                    orig_write(b)
+
+                writer.write = write
+        elif sc.get("via") == "server":
             self.server = self.local.Server(self.sched)
             self.reader = self.loop.do(lambda: asyncio.StreamReader(limit=2**16, loop=self.loop))
             self.writer = vloop.FakeWriter()
@@ -161,6 +185,16 @@ class Exec:
                 acts.append(("exit", p.pid, c))
         if self.loop.next_deadline() is not None:
             acts.append(("timer",))
+        if self.clients:
+            for k, c in enumerate(self.clients):
+                if c["i"] < len(c["ops"]):
+                    after = c.get("after")
+                    if after is not None and any(o["name"] == after and o["i"] < len(o["ops"]) for o in self.clients):
+                        continue  # a late client: connects once the other one has said everything
+                    if c["healthy"] and len(c["writer"].lines()) < c["expect"]:
+                        continue  # gwf's real Client is synchronous: it waits for each answer before the next request
+                    acts.append(("cop", k))
+            return acts
         if self.op_i < len(self.sc["ops"]) and (self.sc.get("via") == "server" or self.op_task is None or self.op_task.done()):
             acts.append(("op",))
         return acts
@@ -179,6 +213,8 @@ class Exec:
             self.loop.fire_timer()
         elif k == "op":
             self._issue_op()
+        elif k == "cop":
+            self._issue_client_op(act[1])
         self._after_state()
 
     def _issue_op(self):
@@ -210,6 +246,57 @@ class Exec:
                     await self.sched.cancel_task(tid)
 
                 self.op_task = self.loop.do(self.loop.create_task, drv())
+        else:
+            raise AssertionError(op)
+
+    def _issue_client_op(self, k):
+        c = self.clients[k]
+        op = c["ops"][c["i"]]
+        c["i"] += 1
+        rd = c["reader"]
+        sc = self.sc
+
+        def feed(obj):
+            self.loop.do(rd.feed_data, (json.dumps(obj) + "\n").encode())
+
+        kind = op[0]
+        if kind == "enq":
+            i = op[1]
+            t = sc["tasks"][i]
+            deps = [self.tids.get(d, 900 + d) for d in t["deps"]] + list(t.get("extra_deps", ()))
+            msg = dict(__kind__="enqueue_task", name=f"t{i}", script=f"run t{i}", time_limit=t.get("time_limit"), working_dir=self.scratch, deps=deps)
+            variant = op[2] if len(op) > 2 else None
+            if variant == "missing_field":
+                del msg["working_dir"]
+            elif variant == "extra_field":
+                msg["bogus"] = 1
+            elif variant == "deps_wrongtype":
+                msg["deps"] = "ab"
+            elif variant == "deps_int":
+                msg["deps"] = 5
+            if variant != "missing_field":
+                c["expect"] += 1
+                c["enq_order"].append(i)
+            feed(msg)
+        elif kind == "states":
+            c["expect"] += 1
+            feed(dict(__kind__="get_task_states"))
+        elif kind == "state1":
+            c["expect"] += 1
+            feed(dict(__kind__="get_task_state", tid=op[1]))
+        elif kind == "cancel":
+            i = op[1]
+            feed(dict(__kind__="cancel_task", tid=self.tids.get(i, 900 + i) if isinstance(i, int) else i))
+        elif kind == "close":
+            feed(dict(__kind__="close"))
+        elif kind == "raw":
+            self.loop.do(rd.feed_data, op[1])
+        elif kind == "eof":
+            self.loop.do(rd.feed_eof)
+            c["i"] = len(c["ops"])  # nothing can follow on a closed connection
+        elif kind == "reset":
+            self.loop.do(rd.set_exception, ConnectionResetError("Connection reset by peer"))
+            c["i"] = len(c["ops"])
         else:
             raise AssertionError(op)
 
@@ -278,7 +365,9 @@ class Exec:
         now = self.loop.time()
         timers = tuple(sorted(round(h._when - now, 6) for h in self.loop._scheduled if not h._cancelled))
         extra = ()
-        if self.sc.get("via") == "server":
+        if self.clients:
+            extra = tuple((c["i"], coro_pos(c["handler"]), bytes(c["reader"]._buffer), len(c["writer"].data)) for c in self.clients)
+        elif self.sc.get("via") == "server":
             extra = (coro_pos(self.handler), bytes(self.reader._buffer), len(self.writer.data))
         return hash((tuple(tasks), sem._value, tuple(waiters), procs, timers, self.op_i, extra, self.loop.n_ready(),
                      tuple(sorted(self.final_seen.items())), len(self.violations)))
@@ -311,6 +400,43 @@ class Exec:
         for p in self.world.procs:
             if p.alive:
                 out.append(("C13", "process still alive at the horizon", dict(proc=p.tag)))
+        out += self.client_checks()
+        return out
+
+    def client_checks(self):
+        """C14: ids unique, state answers true, healthy clients served, accepted tasks final."""
+        out = []
+        if not self.clients:
+            return out
+        if len(set(self.issued)) != len(self.issued):
+            out.append(("C14", "the pool issued one task id twice", dict(issued=self.issued)))
+        for c in self.clients:
+            lines = c["writer"].lines()
+            snaps = c["writer"].snapshots
+            enq_seen = 0
+            for k, line in enumerate(lines):
+                try:
+                    msg = json.loads(line)
+                except ValueError:
+                    out.append(("C14", "server sent an unparsable response", dict(client=c["name"], line=line[:80])))
+                    continue
+                kind = msg.get("__kind__")
+                if kind == "task_enqueued":
+                    if enq_seen < len(c["enq_order"]):
+                        idx = c["enq_order"][enq_seen]
+                        if self.tids.get(idx) != msg["tid"]:
+                            out.append(("C14", "task_enqueued answered with an id that is not the task's own", dict(client=c["name"], task=idx, answered=msg["tid"], true=self.tids.get(idx))))
+                    enq_seen += 1
+                elif kind == "task_states":
+                    truth = snaps[k] if k < len(snaps) else None
+                    if truth is not None and msg["tasks"] != truth:
+                        out.append(("C14", "task_states answer differs from the true task states", dict(client=c["name"], answered=msg["tasks"], true=truth)))
+            if c["healthy"] and len(lines) != c["expect"]:
+                out.append(("C14", "a well-behaved client was not answered", dict(client=c["name"], expected_responses=c["expect"], got=len(lines), lines=lines[-3:])))
+        states = {i: self.state_name(i) for i in range(self.n)}
+        for i, tid in self.tids.items():
+            if states[i] not in FINAL:
+                out.append(("C14", "an accepted task never reached a final state", dict(task=i, state=states[i], states=states)))
         return out
 
 
